@@ -797,8 +797,28 @@ func TestVF_C36_Select(t *testing.T) {
 
 			agrees, parseErr := c36ParserAgrees(q)
 			exp := c36Reference(d, q, cfg.Query.DefaultLimit)
+			// fault on ONE segment object of the topic while this query runs (store error, object
+			// gone between list and get, unreadable body): the reply must then be an error, or a
+			// success whose rows still equal direct filtering (e.g. the segment was not needed)
+			faultMode := ""
+			if cs := d.completed(q.Topic); len(cs) > 0 && rapid.IntRange(0, 4).Draw(t, "fault") == 0 {
+				fs := rapid.SampledFrom(cs).Draw(t, "faultSeg")
+				faultMode = rapid.SampledFrom([]string{"500", "404", "corrupt"}).Draw(t, "faultMode")
+				s3.SetFault(fs.Key, faultMode)
+			}
 			mark := s3.Mark()
 			resp := c36RunQuery(fe, cc, q.Text)
+			faultHits := s3.ClearFault()
+			if faultMode != "" {
+				st.Class("fault:" + faultMode)
+				if faultHits > 0 {
+					if resp.errMsg != "" {
+						st.Class("fault-hit->error")
+					} else {
+						st.Class("fault-hit->success")
+					}
+				}
+			}
 			if resp.ioErr != nil {
 				t.Fatalf("VF-INCONCLUSIVE: connection to the server under test broke on %q: %v", q.Text, resp.ioErr)
 			}
@@ -814,8 +834,9 @@ func TestVF_C36_Select(t *testing.T) {
 				continue // rejecting is always acceptable
 			}
 			if parseErr || !agrees {
-				st.Class("dropped:parser-reads-text-differently")
-				continue
+				// statistic only: the filters of the statement are what its text says (documented
+				// WHERE/LIMIT/TAIL/LAST/ORDER BY syntax), however the dialect happened to read it
+				st.Class("stat:parser-reads-text-differently")
 			}
 			st.Class("answered")
 			if q.Shape == "" {
@@ -854,8 +875,8 @@ func TestVF_C36_Select(t *testing.T) {
 				want[i] = c36Row(r, q.Topic, q.Cols)
 			}
 			fail := func(format string, a ...any) {
-				t.Fatalf("%s\nquery: %s\nserver rows (%d): %q\nreference matches (%d, cap %d): %q\nstats mode %s, sidecars %s, caches %v, segments skipped %d\ndataset: %s",
-					fmt.Sprintf(format, a...), q.Text, len(got), c36Show(got), len(want), exp.cap, c36Show(want), statsMode, sidePolicy, caches, skipped, c36Describe(d, q.Topic))
+				t.Fatalf("%s\nquery: %s\nserver rows (%d): %q\nreference matches (%d, cap %d): %q\nstats mode %s, sidecars %s, caches %v, segments skipped %d, injected fault %q (hits %d)\ndataset: %s",
+					fmt.Sprintf(format, a...), q.Text, len(got), c36Show(got), len(want), exp.cap, c36Show(want), statsMode, sidePolicy, caches, skipped, faultMode, faultHits, c36Describe(d, q.Topic))
 			}
 			wantN := len(want)
 			if wantN > exp.cap {
